@@ -128,6 +128,51 @@ pub open spec fn enumerates(v: Seq<&String>, s: Set<String>) -> bool {
     &&& forall|x: String| s.contains(x) ==> exists|i: int| 0 <= i < v.len() && *#[trigger] v[i] == x
 }
 
+/// the strictly sorted enumeration of a finite set of names (unique by lemma_C13_sorted_enumeration_is_unique)
+pub open spec fn canon(s: Set<String>) -> Seq<String> {
+    choose|v: Seq<String>| sorted_strings(v) && v.no_duplicates() && v.to_set() == s
+}
+
+pub open spec fn sorted_strings(v: Seq<String>) -> bool {
+    forall|i: int, j: int| 0 <= i < j < v.len() ==> str_lt((#[trigger] v[i])@, (#[trigger] v[j])@)
+}
+
+pub open spec fn derefs(v: Seq<&String>) -> Seq<String> {
+    v.map_values(|x: &String| *x)
+}
+
+/// C13: the canonical depth-first post-order — a function of the abstract graph and set only
+pub open spec fn cvisit(g: Graph, name: String, sorted: Seq<String>, visiting: Set<String>) -> Seq<String>
+    decreases g.dom().difference(visiting).len(), 0int, 0int
+    when g.dom().finite()
+    via cvisit_decreases
+{
+    if visiting.contains(name) || sorted.contains(name) { sorted }
+    else if g.contains_key(name) {
+        cfold(g, canon(g[name]), canon(g[name]).len() as int, sorted, visiting.insert(name)).push(name)
+    } else { sorted.push(name) }
+}
+
+#[via_fn]
+proof fn cvisit_decreases(g: Graph, name: String, sorted: Seq<String>, visiting: Set<String>) {
+    if !(visiting.contains(name) || sorted.contains(name)) && g.contains_key(name) {
+        lemma_measure_decreases(g.dom(), visiting, name);
+    }
+}
+
+/// the first k elements of `list` visited in order
+pub open spec fn cfold(g: Graph, list: Seq<String>, k: int, sorted: Seq<String>, visiting: Set<String>) -> Seq<String>
+    decreases g.dom().difference(visiting).len(), 1int, k
+    when g.dom().finite()
+{
+    if k <= 0 || k > list.len() { sorted }
+    else { cvisit(g, list[k - 1], cfold(g, list, k - 1, sorted, visiting), visiting) }
+}
+
+pub open spec fn canon_topo(g: Graph, roots: Set<String>) -> Seq<String> {
+    cfold(g, canon(roots), canon(roots).len() as int, Seq::<String>::empty(), Set::<String>::empty())
+}
+
 //@ EXTRACT-TYPE file=src/analysis/dependency_graph.rs struct=TypeDependencyGraph
 
 #[verifier::external_type_specification]
@@ -152,6 +197,9 @@ pub open spec fn g(&self) -> Graph { graph_of(self.dependencies@) }
 //@ CONTRACT
 //@|    ensures
 //@|        topo_post(self.g(), types@, r@),
+//@|        r@ == canon_topo(self.g(), types@), // [C13]
+//@ FIRST
+//@|    proof { broadcast use lemma_sorted_names_is_canon; }
 //@ LOOP 1 ITER=it
 //@|    invariant
 //@|        visiting@ == Set::<String>::empty(),
@@ -162,12 +210,21 @@ pub open spec fn g(&self) -> Graph { graph_of(self.dependencies@) }
 //@|        from_roots(self.g(), types@, sorted@),
 //@|        0 <= it.index@ <= it.snapshot@.remaining().len(),
 //@|        strictly_sorted(it.snapshot@.remaining()), // [C13]
+//@|        enumerates(it.snapshot@.remaining(), types@), // [C13]
+//@|        self.g().dom().finite(),
+//@|        derefs(it.snapshot@.remaining()) == canon(types@), // [C13]
+//@|        sorted@ == cfold(self.g(), canon(types@), it.index@, Seq::<String>::empty(), Set::<String>::empty()), // [C13]
 //@|        forall|i: int| 0 <= i < it.snapshot@.remaining().len() ==> types@.contains(*#[trigger] it.snapshot@.remaining()[i]),
 //@|        forall|x: String| types@.contains(x) ==> visited@.contains(x)
 //@|            || exists|i: int| it.index@ <= i < it.snapshot@.remaining().len() && *#[trigger] it.snapshot@.remaining()[i] == x,
 //@ BEFORE `self.topological_visit(type_name, &mut sorted, &mut visited, &mut visiting)`
 //@|    let ghost sorted_before = sorted@;
-//@|    proof { assert(string_of(type_name@) == *type_name); }
+//@|    let ghost kk = it.index@;
+//@|    proof {
+//@|        assert(string_of(type_name@) == *type_name);
+//@|        assert(derefs(it.snapshot@.remaining())[kk] == *type_name);
+//@|        assert(canon(types@)[kk] == *type_name);
+//@|    }
 //@ AFTER `self.topological_visit(type_name, &mut sorted, &mut visited, &mut visiting)`
 //@|    proof {
 //@|        assert forall|i: int| 0 <= i < sorted@.len() implies
@@ -178,6 +235,18 @@ pub open spec fn g(&self) -> Graph { graph_of(self.dependencies@) }
 //@|                assert(types@.contains(*type_name) && reaches(self.g(), *type_name, sorted@[i]));
 //@|            }
 //@|        }
+//@|    }
+//@ LOOP-END 1
+//@|    proof {
+//@|        // C13: whether or not the root was already emitted, one more step of the canonical fold was taken
+//@|        let k2 = it.index@;
+//@|        assert(derefs(it.snapshot@.remaining())[k2] == *type_name);
+//@|        assert(canon(types@)[k2] == *type_name);
+//@|        let prev = cfold(self.g(), canon(types@), k2, Seq::<String>::empty(), Set::<String>::empty());
+//@|        assert(sorted@ == cvisit(self.g(), *type_name, prev, Set::<String>::empty())) by {
+//@|            if prev.contains(*type_name) { assert(sorted@ == prev); }
+//@|        }
+//@|        assert(sorted@ == cfold(self.g(), canon(types@), k2 + 1, Seq::<String>::empty(), Set::<String>::empty()));
 //@|    }
 //@ END
 
@@ -201,14 +270,17 @@ pub open spec fn g(&self) -> Graph { graph_of(self.dependencies@) }
 //@|        old(visiting)@.contains(string_of(type_name@)) || final(visited)@.contains(string_of(type_name@)),
 //@|        forall|i: int| old(sorted)@.len() <= i < final(sorted)@.len()
 //@|            ==> reaches(self.g(), string_of(type_name@), #[trigger] final(sorted)@[i]),
+//@|        final(sorted)@ == cvisit(self.g(), string_of(type_name@), old(sorted)@, old(visiting)@), // [C13]
 //@|    decreases self.dependencies@.dom().difference(old(visiting)@).len(),
 //@ FIRST
+//@|    proof { broadcast use lemma_sorted_names_is_canon; }
 //@|    let ghost name_s = string_of(type_name@);
 //@|    let ghost g = self.g();
 //@ AFTER `visiting.insert(type_name.to_string());`
 //@|    proof {
 //@|        assert(visiting@ == old(visiting)@.insert(name_s));
 //@|        lemma_reaches_refl(g, name_s);
+//@|        assert(g.dom() =~= self.dependencies@.dom());
 //@|    }
 //@ LOOP 1 ITER=it
 //@|    invariant
@@ -230,13 +302,20 @@ pub open spec fn g(&self) -> Graph { graph_of(self.dependencies@) }
 //@|            ==> reaches(g, name_s, #[trigger] sorted@[i]),
 //@|        0 <= it.index@ <= it.snapshot@.remaining().len(),
 //@|        strictly_sorted(it.snapshot@.remaining()), // [C13]
+//@|        enumerates(it.snapshot@.remaining(), deps@), // [C13]
+//@|        g.dom().finite(), g.contains_key(name_s), g[name_s] == deps@,
+//@|        derefs(it.snapshot@.remaining()) == canon(deps@), // [C13]
+//@|        sorted@ == cfold(g, canon(deps@), it.index@, old(sorted)@, visiting@), // [C13]
 //@|        forall|i: int| 0 <= i < it.snapshot@.remaining().len() ==> deps@.contains(*#[trigger] it.snapshot@.remaining()[i]),
 //@|        forall|x: String| deps@.contains(x) ==> visiting@.contains(x) || visited@.contains(x)
 //@|            || exists|i: int| it.index@ <= i < it.snapshot@.remaining().len() && *#[trigger] it.snapshot@.remaining()[i] == x,
 //@ BEFORE `self.topological_visit(dep, sorted, visited, visiting)`
 //@|    let ghost sorted_before = sorted@;
 //@|    let ghost visited_before = visited@;
+//@|    let ghost kk = it.index@;
 //@|    proof {
+//@|        assert(derefs(it.snapshot@.remaining())[kk] == *dep);
+//@|        assert(canon(deps@)[kk] == *dep);
 //@|        assert(deps@.contains(*dep));
 //@|        assert(edge(g, name_s, *dep));
 //@|        assert(string_of(dep@) == *dep);
@@ -249,6 +328,8 @@ pub open spec fn g(&self) -> Graph { graph_of(self.dependencies@) }
 //@|    }
 //@ AFTER `self.topological_visit(dep, sorted, visited, visiting)`
 //@|    proof {
+//@|        assert(sorted@ == cvisit(g, canon(deps@)[kk], cfold(g, canon(deps@), kk, old(sorted)@, visiting@), visiting@));
+//@|        assert(sorted@ == cfold(g, canon(deps@), kk + 1, old(sorted)@, visiting@));
 //@|        assert forall|i: int| old(sorted)@.len() <= i < sorted@.len()
 //@|            implies reaches(g, name_s, #[trigger] sorted@[i]) by {
 //@|            if i >= sorted_before.len() {
@@ -263,6 +344,10 @@ pub open spec fn g(&self) -> Graph { graph_of(self.dependencies@) }
 //@|                assert(sorted@[j] == x);
 //@|            }
 //@|        }
+//@|    }
+//@ AFTER-LOOP 1
+//@|    proof {
+//@|        assert(sorted@ == cfold(g, canon(g[name_s]), canon(g[name_s]).len() as int, old(sorted)@, visiting@));
 //@|    }
 //@ BEFORE `visiting.remove(type_name);`
 //@|    let ghost sorted_mid = sorted@;
@@ -329,6 +414,15 @@ pub open spec fn g(&self) -> Graph { graph_of(self.dependencies@) }
 //@|            }
 //@|        }
 //@|        assert(sorted@[n] == name_s);
+//@|        // C13: this is the canonical post-order
+//@|        assert(g.dom() =~= self.dependencies@.dom());
+//@|        assert(!old(sorted)@.contains(name_s)) by { if old(sorted)@.contains(name_s) { assert(old(sorted)@.to_set().contains(name_s)); } }
+//@|        if g.contains_key(name_s) {
+//@|            assert(sorted_mid == cfold(g, canon(g[name_s]), canon(g[name_s]).len() as int, old(sorted)@, old(visiting)@.insert(name_s)));
+//@|        } else {
+//@|            assert(sorted_mid == old(sorted)@);
+//@|        }
+//@|        assert(sorted@ == cvisit(g, name_s, old(sorted)@, old(visiting)@));
 //@|    }
 //@ END
 
@@ -418,6 +512,97 @@ pub proof fn lemma_C13_sorted_enumeration_is_unique(a: Seq<&String>, b: Seq<&Str
             if i > 0 { assert(a1[i - 1] == a[i] && b1[i - 1] == b[i]); }
         }
     }
+}
+
+//@ PROPS C13
+proof fn lemma_sorted_strings_unique(a: Seq<String>, b: Seq<String>)
+    requires sorted_strings(a), sorted_strings(b), a.to_set() == b.to_set(),
+    ensures a == b,
+    decreases a.len(),
+{
+    broadcast use axiom_str_lt_order;
+    if a.len() == 0 {
+        if b.len() > 0 { assert(b.to_set().contains(b[0])); assert(a.to_set().contains(b[0])); }
+        assert(a =~= b);
+    } else {
+        assert(a.to_set().contains(a[0]));
+        assert(b.to_set().contains(a[0]));
+        let j = choose|j: int| 0 <= j < b.len() && b[j] == a[0];
+        assert(b.to_set().contains(b[0]));
+        assert(a.to_set().contains(b[0]));
+        let k = choose|k: int| 0 <= k < a.len() && a[k] == b[0];
+        if j > 0 {
+            assert(str_lt(b[0]@, b[j]@));
+            if k > 0 { assert(str_lt(a[0]@, a[k]@)); }
+            assert(false);
+        }
+        assert(a[0] == b[0]);
+        let a1 = a.skip(1);
+        let b1 = b.skip(1);
+        assert forall|i: int, jj: int| 0 <= i < jj < a1.len() implies str_lt((#[trigger] a1[i])@, (#[trigger] a1[jj])@) by {
+            assert(a1[i] == a[i + 1] && a1[jj] == a[jj + 1]);
+        }
+        assert forall|i: int, jj: int| 0 <= i < jj < b1.len() implies str_lt((#[trigger] b1[i])@, (#[trigger] b1[jj])@) by {
+            assert(b1[i] == b[i + 1] && b1[jj] == b[jj + 1]);
+        }
+        assert forall|x: String| a1.to_set().contains(x) <==> b1.to_set().contains(x) by {
+            if a1.to_set().contains(x) {
+                let i = choose|i: int| 0 <= i < a1.len() && a1[i] == x;
+                assert(a[i + 1] == x);
+                assert(str_lt(a[0]@, a[i + 1]@));
+                assert(a.to_set().contains(x));
+                assert(b.to_set().contains(x));
+                let m = choose|m: int| 0 <= m < b.len() && b[m] == x;
+                assert(m > 0);
+                assert(b1[m - 1] == x);
+            }
+            if b1.to_set().contains(x) {
+                let i = choose|i: int| 0 <= i < b1.len() && b1[i] == x;
+                assert(b[i + 1] == x);
+                assert(str_lt(b[0]@, b[i + 1]@));
+                assert(b.to_set().contains(x));
+                assert(a.to_set().contains(x));
+                let m = choose|m: int| 0 <= m < a.len() && a[m] == x;
+                assert(m > 0);
+                assert(a1[m - 1] == x);
+            }
+        }
+        assert(a1.to_set() =~= b1.to_set());
+        lemma_sorted_strings_unique(a1, b1);
+        assert(a =~= b) by {
+            assert forall|i: int| 0 <= i < a.len() implies a[i] == b[i] by {
+                if i > 0 { assert(a1[i - 1] == a[i] && b1[i - 1] == b[i]); }
+            }
+            assert(a.len() == a1.len() + 1 && b.len() == b1.len() + 1);
+        }
+    }
+}
+
+/// what sorted_names returns IS the canonical enumeration
+//@ PROPS C13
+pub broadcast proof fn lemma_sorted_names_is_canon(v: Seq<&String>, s: Set<String>)
+    requires strictly_sorted(v), enumerates(v, s),
+    ensures #![trigger derefs(v), canon(s)] derefs(v) == canon(s), derefs(v).len() == v.len(),
+{
+    broadcast use axiom_str_lt_order;
+    let d = derefs(v);
+    assert forall|i: int, j: int| 0 <= i < j < d.len() implies str_lt((#[trigger] d[i])@, (#[trigger] d[j])@) by {
+        assert(d[i] == *v[i] && d[j] == *v[j]);
+    }
+    assert(d.no_duplicates()) by {
+        assert forall|i: int, j: int| 0 <= i < d.len() && 0 <= j < d.len() && i != j implies d[i] != d[j] by {
+            if i < j { assert(str_lt(d[i]@, d[j]@)); } else { assert(str_lt(d[j]@, d[i]@)); }
+        }
+    }
+    assert(d.to_set() =~= s) by {
+        assert forall|x: String| d.to_set().contains(x) <==> s.contains(x) by {
+            if d.to_set().contains(x) { let i = choose|i: int| 0 <= i < d.len() && d[i] == x; assert(*v[i] == x); }
+            if s.contains(x) { let i = choose|i: int| 0 <= i < v.len() && *#[trigger] v[i] == x; assert(d[i] == x); }
+        }
+    }
+    let c = canon(s);
+    assert(sorted_strings(c) && c.no_duplicates() && c.to_set() == s);
+    lemma_sorted_strings_unique(d, c);
 }
 
 // ------------------------------------------------------------------ the properties
